@@ -134,7 +134,9 @@ impl Driver {
                 // Callers pass any iterator: every third call hands the batch over through a `filter` that drops
                 // interleaved dummy items, so that the iterator's size hint is inexact (lower bound 0, upper bound
                 // larger than the real count — also for an EMPTY batch).
-                let res = if op_index % 3 == 0 {
+                // (chosen from the call's own arguments, so that the same call is made the same way in every run that
+                // repeats it: projections, reference logs, other policies)
+                let res = if crate::util::hash64(op) % 3 == 0 {
                     let dummy: &[u8] = b"never appended: dropped by the caller's filter";
                     let mut items: Vec<(bool, &[u8])> = vec![(false, dummy)];
                     for bytes in payloads {
